@@ -248,6 +248,38 @@ def run(prop, tier):
                     ctx.violation("model %s: code %r is not listed by ovnievents but the handler accepts it right after %s" % (model, mcv, after),
                                   {"engine": "E3", "model": model, "mcv": mcv, "after": after, "prefix": [e.line() for e in prefix], "flags": pool.flags},
                                   {"kind": "unlisted-accepted", "mcv": mcv})
+                # ---- (A3) unlisted codes carrying the well-formed arguments of a listed event of their category (a handler that
+                # checks the payload before the value - or instead of it - lets them through)
+                pr3, seen3 = [], set()
+                for (m_, ev) in cand:
+                    if not ev[3] and ev[4] is None:
+                        continue
+                    for v in PRINTABLE:
+                        mcv = m_[:2] + v
+                        key3 = (mcv, ev[0], ev[3], ev[4])
+                        if mcv in by_mcv or key3 in seen3:
+                            continue
+                        seen3.add(key3)
+                        pr3.append((Ev(ev[0], mcv, ev[3], 1, ev[4]), m_))
+                acc3 = {}
+                tasks3 = [(prefix, [q[0] for q in pr3[i:i + 600]]) for i in range(0, len(pr3), 600)]
+                k3 = 0
+                for (hres, pres) in pool.expand_many(tasks3):
+                    if not hres.get("ok"):
+                        break
+                    for r in pres:
+                        pe, like = pr3[k3]
+                        k3 += 1
+                        if r.crashed:
+                            ctx.violation("model %s: unlisted code %r with the arguments of %s crashes the emulator: %s" % (model, pe[2], like, r.msg),
+                                          {"engine": "E3", "model": model, "mcv": pe[2], "like": like}, {"kind": "crash", "mcv": pe[2]})
+                        elif r.ok and not (pe[2][1] in IGNORED_VALUE.get(ch, "") or pe[2] in legacy):
+                            acc3.setdefault(pe[2], (like, pe))
+                ctx.add(evaluations=k3, transitions=k3)
+                for mcv, (like, pe) in sorted(acc3.items()):
+                    ctx.violation("model %s: code %r is not listed by ovnievents but the handler accepts it with the arguments of %s" % (model, mcv, like),
+                                  {"engine": "E3", "model": model, "mcv": mcv, "like": like, "prefix": [e.line() for e in prefix], "probe": pe.line(), "flags": pool.flags},
+                                  {"kind": "unlisted-accepted", "mcv": mcv})
                 # thread states in which the model's events are legal (DESIGN.md A.5): nOS-V and Nanos6 events only need an
                 # active thread, so the search is repeated from a cooling and from a warming thread
                 ctxs = [("running", [])]
